@@ -25,6 +25,9 @@ fn main() {
         std::process::exit(2);
     };
     let mut p = NetflowParser::default();
+    if args[1].contains("all-versions-allowed") {
+        p.allowed_versions = (0..=u16::MAX).collect();
+    }
     for c in &pre {
         p.parse_bytes(c);
     }
